@@ -29,6 +29,9 @@ pub struct Counters {
 
 pub struct Inner {
     pub data: Vec<u8>,
+    /// what the medium held at its last flush() (kept only while `data` has been written since)
+    durable: Vec<u8>,
+    synced: bool,
     pub c: Counters,
     pub fault: Option<Fault>,
 }
@@ -41,7 +44,7 @@ pub struct Medium {
 
 impl Medium {
     pub fn new(data: Vec<u8>) -> Medium {
-        Medium { inner: Rc::new(RefCell::new(Inner { data, c: Counters::default(), fault: None })), pos: 0 }
+        Medium { inner: Rc::new(RefCell::new(Inner { data, durable: Vec::new(), synced: true, c: Counters::default(), fault: None })), pos: 0 }
     }
     /// a second handle on the same bytes (position 0)
     pub fn handle(&self) -> Medium {
@@ -49,6 +52,12 @@ impl Medium {
     }
     pub fn snap(&self) -> Vec<u8> {
         self.inner.borrow().data.clone()
+    }
+    /// The bytes that survive a crash of a medium that defers writes until flush(): the contents at
+    /// the last successful flush() of the medium (all of them when nothing was written since).
+    pub fn snap_durable(&self) -> Vec<u8> {
+        let g = self.inner.borrow();
+        if g.synced { g.data.clone() } else { g.durable.clone() }
     }
     pub fn counters(&self) -> Counters {
         self.inner.borrow().c
@@ -93,6 +102,10 @@ impl Write for Medium {
         let idx = g.c.writes;
         g.c.writes += 1;
         Medium::check(&mut g, Kind::Write, idx)?;
+        if g.synced {
+            g.durable = g.data.clone();
+            g.synced = false;
+        }
         let end = self.pos as usize + buf.len();
         if g.data.len() < end {
             g.data.resize(end, 0);
@@ -102,7 +115,10 @@ impl Write for Medium {
         Ok(buf.len())
     }
     fn flush(&mut self) -> io::Result<()> {
-        self.inner.borrow_mut().c.flushes += 1;
+        let mut g = self.inner.borrow_mut();
+        g.c.flushes += 1;
+        g.synced = true;
+        g.durable = Vec::new();
         Ok(())
     }
 }
